@@ -377,9 +377,15 @@ impl<F: Field> Circuit<F> {
                     });
 
                     // b and out creator flags (now independent).
-                    // Private inputs can be b-creators even in the forward case.
-                    let b_is_private_creator =
-                        !b_already_defined && private_input_wids.contains(&b.0);
+                    // Private inputs can be b-creators even in the forward case. So can hint
+                    // outputs: no table emits them, so the first row that mentions one must
+                    // create it, or the bus holds a read that nobody sends. When `a` or `c` of
+                    // this row already creates the same slot, `b` stays a reader of it.
+                    let b_aliases_row_creator = (a_state == F::TWO && a.0 == b.0)
+                        || (c_state == F::TWO && c_wid.0 == b.0);
+                    let b_is_private_creator = !b_already_defined
+                        && (private_input_wids.contains(&b.0)
+                            || hint_output_wids.contains(&b.0) && !b_aliases_row_creator);
                     // A hint output in the `out` slot is a backward op: the hint value is given,
                     // so `b` is the witness this row solves for and takes the bus creator role
                     // (the hint output itself is still created via `out_is_creator`).
